@@ -129,11 +129,18 @@ CLAIMS = {
               'one call is the iteration of the one-pack program; the stored blobs (zlib) are oracles.'),
         design='4/C09'),
     'C10': dict(
-        technique='Coq lemmas (mode function, transparency, sizes) + mode-chain histories with per-row flag checks',
-        text=('PROOF (Coq, closed): C10_modes (YES/NO/KEEP as a function; AUTO is an oracle), C10_transparent, C10_plain_length_is_size, '
-              'C10_repack_keeps_keys, threshold constants from the AST. TIE: 130 mode-chain histories (pack/repack with NO/YES/KEEP/AUTO/bools, empty, '
-              'tiny, compressible, incompressible, 66-70 kB objects) checking per affected row the flag, size, stored length and the four totals '
-              'against the raw index/packs. PARTIAL: repack/pack programs are not modelled as Gallina programs; estimate_compression is not modelled.'),
+        technique='Coq: every write program leaves exactly the requested stored form (all inputs), transparency from the invariant, estimate model + mode-chain histories with per-row flag checks',
+        text=('PROOF (Coq, closed): C10_pack_writes_the_requested_form, C10_direct_and_import_write_the_requested_form, C10_repack_writes_the_requested_form '
+              '(after the completed call every entry written has the compressed flag, stored length and size of the object handed over for its key, every '
+              'other entry is the old one), C10_repack_uniform_mode (all handed over compressed/plain => all entries of the pack compressed/plain), '
+              'C10_modes (YES/NO/KEEP as a function; AUTO is an oracle), C10_transparent (any form reads back as the content; size = content length), '
+              'C10_plain_length_is_size, C10_repack_keeps_keys, C11_repack_changes_no_view, C10_estimate_restores_position (sampling seeks stay inside '
+              'the stream, terminate, restore the position), threshold constants within range. TIE: the repack/pack/direct-to-pack programs reproduce '
+              'the implementation traces (flags and blobs recovered from the run); seeks of estimate_compression == Compress.estimate, incl. data '
+              'behind compressed-format signatures; 130 mode-chain histories (pack/repack with NO/YES/KEEP/AUTO/bools, empty, tiny, compressible, '
+              'incompressible, already-compressed, 66-70 kB objects) checking per affected row the flag, size, stored length and the four totals '
+              'against the raw index/packs. PARTIAL: that the flag handed over is the one the mode prescribes (should_compress with the old flag for '
+              'KEEP, the heuristic for AUTO) is decided by the histories; the size totals are checked, not proved.'),
         design='4/C10'),
     'C11': dict(
         technique='Coq lemmas on DELETE / repack statements / unlink + delete-heavy histories with raw pack comparison',
